@@ -173,6 +173,13 @@ def gen_opts(rng):
         o["theta_start"] = rng.choice([1.25, 2.0, 1.0 + 2.0 ** -20])  # the loop body never runs
     if rng.random() < 0.15:
         o["homotopy_parameter"] = rng.choice(["h", "alpha"])
+    if rng.random() < 0.03:
+        # no minimum increment: outside the termination theorem, every other clause still applies
+        # (finite scripts only; afterwards every solve succeeds, so the run ends)
+        o["theta_start"] = rng.choice([0.0, 0.5, -0.5])
+        o["delta_theta_0"] = rng.choice([1.0, 0.5, 0.25])
+        o["delta_theta_min"] = rng.choice([0.0, -1.0])
+        o["_short"] = True
     return o
 
 
@@ -428,6 +435,8 @@ def run_batch(c, cls, batch, stream, members_of=None):
         c.count(key)
         c.hit("%s/%s" % (stream, "raise" if r["kind"] == "raise" else ("success" if r["ret"] else "failure")))
         c.hit("%s/%s" % (stream, "exact" if exact else "decimal"))
+        if dmin <= 0:
+            c.hit(stream + "/delta-min-nonpositive")
         if nfail and r["ret"]:
             c.hit(stream + "/success-after-failures")
         if len(log) == 1 and not log[0][1]:
@@ -449,7 +458,10 @@ def stream_random(c, cls, n):
     rng = c.rng
     batch = []
     for _ in range(n):
-        batch.append((gen_opts(rng), gen_script(rng)))
+        o, sc = gen_opts(rng), gen_script(rng)
+        if o.pop("_short", False):
+            sc = sc[:8]
+        batch.append((o, sc))
     run_batch(c, cls, batch, "stub", members_of=lambda o, s: 1 + (len(s) % 2))
 
 
